@@ -11,6 +11,21 @@ CHECKS = {
          "Every reachable state of ArrayVec<Error,N> (every N in the stated range) and of Vec<Error> (length-bounded) under push/pop/clear over a 3-5 error alphabet is visited; each transition executes the real queue code and compares pop result, length, emptiness and full drained content with a FIFO model. Complete inside the bound; the queue code does not branch on error values, so the alphabet is representative.",
          "Trusted: the 15-line FIFO reference, stateright's BFS/dedup, Clone/Hash of the queue value. Capacities above the bound and pushes of other error values are not explored.",
          "DESIGN.md section 5 (C12)"),
+ "C13": ("model_checking",
+         "explicit-state BFS (stateright) over the documented SCPI device and full mandated command tree, every transition a real Node::run compared with a reference model of queue + ESR",
+         "All reachable states (error queue content up to a length bound, ESR, ESE, SRE, status registers) of the documented device under an alphabet of whole program messages: valid commands, one failing message per error kind and raising mechanism, *OPC, SYST:ERR[:NEXT]?/COUNt?/ALL?, *ESR?, and multi-unit messages that mix failures and queries. Each transition runs the real parser, dispatcher, handlers and device glue and compares return value, response bytes, queue content and ESR with the model. Complete within the alphabet and bound; histories of any length are covered through the fixpoint.",
+         "Trusted: the reference model (scpimodel.rs, ~250 lines, written from SCPI-99 21.8 / IEEE 488.2 11.5), the binding table message-text -> semantic action, stateright. Queue length is bounded for the growable queue; error kinds outside the alphabet are not explored.",
+         "DESIGN.md section 5 (C13)"),
+ "C15": ("model_checking",
+         "explicit-state BFS (stateright) over the real OPERation/QUEStionable register sets via the real tree and set_condition, lock-step with a bitwise reference model",
+         "Every reachable valuation of (condition, event, enable, PTR, NTR) over all subsets of a representative bit set (incl. bits 0, 14 and the unusable bit 15), under device-side condition updates (set_condition, set/clear_condition_bits), ENAB/PTR/NTR writes in decimal and #H, all five queries incl. the default-node form, *CLS, STAT:PRES and malformed writes; plus one slice per bit position 0..15 and a product slice of both sets. Every transition compares responses and all register fields with the model.",
+         "Trusted: the bitwise reference model, the binding table, stateright. Register values outside the representative bit sets are covered only through the per-bit slices (the code is bitwise-uniform). STAT:PRES leaving the condition register alone follows SCPI-99 20.2.",
+         "DESIGN.md section 5 (C15)"),
+ "C16": ("model_checking",
+         "explicit-state BFS (stateright), three slices over the documented device, every transition a real Node::run compared with an IEEE 488.2 section 11 reference model",
+         "S1: all reachable (ESR, ESE, SRE, queue, self-test) states under *ESE/*SRE values covering every bit, *ESR?, *STB? with MAV both ways, *CLS, *OPC, *OPC?, *TST?, *RST, *WAI, a failing message per ESR class, SYST:ERR? and multi-unit combinations. S2: OPER and QUES summary bits against SRE and *STB?. S3: every value 0..255 plus out-of-range, rounded and mistyped values written to *ESE and *SRE and read back. Response, return value and every device register are compared after each message.",
+         "Trusted: the reference model of the status byte (summary = event & enable per IEEE 488.2 11.4.3; MSS over all other bits incl. MAV; *CLS clears ESR, event registers and error queue), the binding table, stateright. Queue bound 1-2.",
+         "DESIGN.md section 5 (C16)"),
 }
 
 NOT_YET = "check not built yet (planned: DESIGN.md section 5 describes the bounded exhaustive exploration that will decide it)"
